@@ -95,6 +95,10 @@ def builders(model):
             lambda I, S, f=f, cx=cx: inst(
                 I, 'MultiplyOperator', sym_elem(S[f], 'm'),
                 domain=NField('C' if cx else 'R')))
+        B['MultiplyOperator[scalar multiplicand, %s]' % f] = (
+            lambda I, S, f=f, cx=cx: inst(
+                I, 'MultiplyOperator', sym_scalar('s', cx), domain=S[f],
+                range=S[f]))
         B['InnerProductOperator[%s]' % f] = (
             lambda I, S, f=f: inst(I, 'InnerProductOperator',
                                    sym_elem(S[f], 'v')))
@@ -357,6 +361,15 @@ def builders(model):
             I, 'Divergence', range=D(w, cx))
         B['Laplacian[%s]' % t] = lambda I, S, w=w, cx=cx: inst(
             I, 'Laplacian', D(w, cx))
+
+    def D32():
+        X = D()
+        return NSpace(X.shape, 'float32', Rat.var('h0') * Rat.var('h1'),
+                      cell_sides=[Rat.var('h0'), Rat.var('h1')])
+    B['Laplacian[range of lower precision]'] = lambda I, S: inst(
+        I, 'Laplacian', D(), range=D32())
+    B['PartialDerivative[range of lower precision]'] = lambda I, S: inst(
+        I, 'PartialDerivative', D(), 0, range=D32())
     wps = lambda X: NPSpace([X, X], [Rat.var('p0'), Rat.var('p1')])
     B['Gradient[weighted product-space range]'] = lambda I, S: inst(
         I, 'Gradient', D(), range=wps(D()))
